@@ -122,8 +122,39 @@ pub struct Dgram {
     pub forged: bool,
     /// length of the prefix that is byte-identical to the genuine datagram
     pub intact: usize,
+    /// for a datagram the network corrupted: the genuine bytes and the byte ranges [lo, hi) of
+    /// them that were altered or cut off (none when bytes were only appended). Packets that meet
+    /// none of these ranges are still genuine (`untouched`).
+    pub orig: Option<(Vec<u8>, Vec<(usize, usize)>)>,
     /// pair id of the producing connection at the time of sending (handles get reused)
     pub opair: Option<u64>,
+}
+
+impl Dgram {
+    /// The packets of this datagram that are byte-identical to packets of the genuine datagram:
+    /// (type, offset, length). All of them for an unaltered datagram, none for a forgery built by
+    /// the harness, and for a datagram the network corrupted those outside the altered range.
+    pub fn untouched(&self) -> Vec<(crate::wire::PType, usize, usize)> {
+        let mut out = vec![];
+        let mut off = 0;
+        if !self.forged {
+            for (ty, len) in crate::wire::split_types(&self.data) {
+                out.push((ty, off, len));
+                off += len;
+            }
+        } else if let Some((orig, touched)) = &self.orig {
+            let extended = self.data.len() > orig.len();
+            for (ty, len) in crate::wire::split_types(orig) {
+                let clear = touched.iter().all(|(lo, hi)| off + len <= *lo || off >= *hi);
+                // a short-header packet runs to the end of the datagram: appended bytes alter it
+                if clear && off + len <= self.data.len() && !(extended && ty == crate::wire::PType::Short) {
+                    out.push((ty, off, len));
+                }
+                off += len;
+            }
+        }
+        out
+    }
 }
 
 impl PartialEq for Dgram {
@@ -631,7 +662,7 @@ impl World {
         self.net.gid += 1;
         let gid = self.net.gid;
         let mut data = data;
-        if self.netcfg.coalesce_junk_pm > 0 && dir == 0 && data.len() >= 1200 && data[0] & 0xf0 == 0xc0 && self.rng_inject.permille(self.netcfg.coalesce_junk_pm) {
+        if self.netcfg.coalesce_junk_pm > 0 && dir == 0 && data.len() >= 1200 && data[0] & 0xf0 == 0xc0 && crate::wire::split_types(&data).iter().all(|(t, _)| *t == crate::wire::PType::Initial) && self.rng_inject.permille(self.netcfg.coalesce_junk_pm) {
             // Initial packets carry their own length, so whatever follows is a further packet
             let (dl, sl) = (data[5] as usize, *data.get(6 + data[5] as usize).unwrap_or(&0) as usize);
             let k = 2 + self.rng_inject.below(7);
@@ -691,6 +722,8 @@ impl World {
             let mut d = data.clone();
             let mut forged = false;
             let mut intact = d.len();
+            let mut touched: Vec<(usize, usize)> = vec![];
+            let mut retry_untouched = true;
             let mut ecn = ecn;
             if let Some((kind, upto)) = self.netcfg.retry_mutation {
                 if d.len() > 23 && d[0] & 0xb0 == 0xb0 && u32::from_be_bytes(d[1..5].try_into().unwrap()) != 0 {
@@ -718,6 +751,7 @@ impl World {
                         }
                         forged = true;
                         intact = 0;
+                        retry_untouched = false;
                         self.net.fired.inc("retry_mutated");
                     } else {
                         self.net.fired.inc("retry_genuine");
@@ -734,12 +768,14 @@ impl World {
                             let i = self.rng.usize(d.len());
                             d[i] ^= 1 << self.rng.below(8);
                             intact = intact.min(i);
+                            touched.push((i, i + 1));
                         }
                     }
                     2 => {
                         let keep = self.rng.usize(d.len());
                         d.truncate(keep.max(1));
                         intact = d.len();
+                        touched.push((d.len(), data.len()));
                     }
                     _ => {
                         let extra = 1 + self.rng.usize(40);
@@ -752,6 +788,7 @@ impl World {
                 // the flips cancelled each other out: the datagram is genuine after all
                 forged = false;
                 intact = d.len();
+                touched.clear();
             }
             if faults_on && ecn.is_some() && self.rng.permille(self.netcfg.ce_pm) {
                 ecn = Some(EcnCodepoint::Ce);
@@ -770,6 +807,7 @@ impl World {
                 copy,
                 forged,
                 intact,
+                orig: if forged && retry_untouched { Some((data.clone(), touched)) } else { None },
                 opair: origin.and_then(|ch| self.eps[from_ep].conns.get(&ch).map(|c| c.pair)),
             });
         }
@@ -779,7 +817,7 @@ impl World {
     /// Additional hostile traffic derived from a genuine datagram (never replaces it).
     fn inject_variants(&mut self, from_ep: usize, origin: Option<usize>, src: SocketAddr, dst: SocketAddr, ecn: Option<EcnCodepoint>, data: &[u8], gid: u64) {
         let opair = origin.and_then(|ch| self.eps[from_ep].conns.get(&ch).map(|c| c.pair));
-        let base = Dgram { at: 0, seq: 0, src, dst, ecn, data: data.to_vec(), origin: origin.map(|c| (from_ep, c)), gid, copy: 0, forged: false, intact: data.len(), opair };
+        let base = Dgram { at: 0, seq: 0, src, dst, ecn, data: data.to_vec(), origin: origin.map(|c| (from_ep, c)), gid, copy: 0, forged: false, intact: data.len(), orig: None, opair };
         if self.netcfg.replay_pm > 0 && self.rng_inject.permille(self.netcfg.replay_pm) {
             // verbatim replay, later
             let mut d = base.clone();
@@ -884,7 +922,7 @@ impl World {
     pub fn inject(&mut self, at: u64, src: SocketAddr, dst: SocketAddr, ecn: Option<EcnCodepoint>, data: Vec<u8>, gid: u64, forged: bool) {
         self.net.seq += 1;
         let intact = if forged { 0 } else { data.len() };
-        self.net.q.push(Dgram { at, seq: self.net.seq, src, dst, ecn, data, origin: None, gid, copy: 1, forged, intact, opair: None });
+        self.net.q.push(Dgram { at, seq: self.net.seq, src, dst, ecn, data, origin: None, gid, copy: 1, forged, intact, orig: None, opair: None });
     }
 
     fn ep_of_addr(&self, a: &SocketAddr) -> Option<usize> {
@@ -952,7 +990,7 @@ impl World {
                                 self.counted.insert(d.gid, authed >= npk && npk > 0);
                             }
                         }
-                    } else if d.intact == 0 {
+                    } else if d.untouched().is_empty() {
                         // nothing of this datagram is genuine: it must not be authenticated
                         self.mon.cnt.inc("c04.forged_delivered");
                         let authed = conn.c.verif_probe().authed_packets - pre_authed;
